@@ -539,6 +539,16 @@ func (o Opt) WriteTo(w io.Writer) (n int64, err error) {
 	return
 }
 
+// ASSERTZERO control: forwards the failed assertion's zero value instead of the operand
+func zeroFwd(x interface{}) int {
+	var t *Thing
+	var ok bool
+	if t, ok = x.(*Thing); !ok {
+		return t.useConf()
+	}
+	return 0
+}
+
 func rnsBad(r *ring.Ring, v uint64) (rns ring.RNSScalar) {
 	rns = make(ring.RNSScalar, r.Level()+1)
 	for i := range rns {
